@@ -21,11 +21,11 @@ import (
 // C09: fail closed on storage failure at lookup time.
 
 type c09Fault struct {
-	Name  string
-	Disk  bool // applies to the disk backend
-	Mem   bool // applies to the memory backend
+	Name string
+	Disk bool // applies to the disk backend
+	Mem  bool // applies to the memory backend
 	// Arm installs the fault on a world whose entry is loaded; returns a disarm func.
-	Arm func(w *CW, listedKeyRecord []byte) func()
+	Arm        func(w *CW, listedKeyRecord []byte) func()
 	OnlyListed bool // the fault corrupts the record of the listed certificate
 }
 
@@ -213,16 +213,16 @@ func RunC09(tier string, args []string) int {
 		samples = []string{"backend=disk fault=handle-closed probe=listed", "backend=mem fault=record:truncated@7 probe=listed"}
 	}
 	cov := fw.Coverage{
-		"states":                        evals + execs,
-		"transitions":                   evals + points,
-		"traces_validated_against_impl": evals + execs,
-		"fault_cases":                   evals,
+		"states":                          evals + execs,
+		"transitions":                     evals + points,
+		"traces_validated_against_impl":   evals + execs,
+		"fault_cases":                     evals,
 		"fault_cases_that_hit_the_lookup": nontrivial,
-		"schedule_executions":           execs,
-		"schedule_scenarios":            reports,
-		"outcome_classes":               outcomes.Counts(),
-		"samples":                       samples,
-		"exhaustive":                    exhaustive,
+		"schedule_executions":             execs,
+		"schedule_scenarios":              reports,
+		"outcome_classes":                 outcomes.Counts(),
+		"samples":                         samples,
+		"exhaustive":                      exhaustive,
 	}
 	return chk.Finish(cov)
 }
